@@ -6,7 +6,9 @@ Correspondence (H-nmea, H-prim): extracted model vs pyais.decode.decode_nmea_lin
 strings; compared is the outcome CLASS: delivered attributes (explicit tuples) | library exception name | foreign
 exception name.  Oracle: an exception escaping decode()/decode_nmea_line on any bytes is an AISBaseException.
 The reader-loop half of the property (C05b-d: IterMessages/ByteStream/NMEAQueue with and without a tag block queue) is
-added by the composition layer: see run_readers() below."""
+added by the composition layer: see run_readers() below.  Until then every single generated line is also fed, oracle
+only and without a model, to IterMessages and NMEAQueue.put_line (no tag block queue): that is what reports the lines
+that parse but crash the loops later (fragment count 0, negative fragment numbers)."""
 import os
 import sys
 
